@@ -86,7 +86,14 @@ def shard(ctx, n, sub, depth):
                 ctx.count("errors_raised_by_an_executed_task")
                 if run_i > 0:
                     ctx.count("reexecutions_of_failed_calls_observed")
-            elif (key[1], key[2]) in task_raised_keys or (key[1], key[2]) in failed_keys_here:
+            elif (key[1], key[2]) in failed_keys_here:
+                # an equal call was executed and failed in THIS execution and its failure was handed to a duplicate of the
+                # call (common-subexpression scope, possibly through the recorded error): allowed - the statement only
+                # forbids replaying failures of EARLIER executions
+                ctx.count("errors_delivered_to_a_duplicate_within_the_execution")
+                if run_i > 0:
+                    ctx.count("reexecutions_of_failed_calls_observed")
+            elif (key[1], key[2]) in task_raised_keys:
                 ctx.violation("failure-replayed-from-cache", "execution %d raised %r, which no task function executed in this "
                               "execution raised (failing reports here: %r)" % (run_i, key, sorted(failed_keys_here)), w2)
                 break
